@@ -16,6 +16,10 @@ FILES = {
     "uncap": "4x\n7up\nUSA\n",
     "twinonly": "polish\nalpha\nPolish\nbeta\n",
     "empty": "",
+    "solo": "solo\n",
+    "solodup": "solo solo\nsolo\n",
+    "solotwin": "polish Polish\n",
+    "innerpunct": "mother-in-law o'clock\nfoo-bar baz\n",
 }
 
 
